@@ -12,13 +12,26 @@ def prove_targets(db, targets, lemmas=(), timeout_ms=20000, verbose=False):
     obs, funcs, undecided, heaps = [], [], [], {}
     t0 = time.time()
     for cc in targets:
+        if cc.opts.get("abstract"):
+            continue
         variants = [(cc, cc.target, None)]
         impl = cc.opts.get("implements")
         if impl and impl in db.contracts:
             variants.append((db.contracts[impl], cc.target, cc.target + "@" + impl.split(".")[-2]))
+        import itertools
+        expanded = []
         for (c2, tgt, prefix) in variants:
+            if c2.cases:
+                names = sorted(c2.cases)
+                for combo in itertools.product(*[c2.cases[n] for n in names]):
+                    fx = dict(zip(names, combo))
+                    tag = ",".join("%s=%r" % kv for kv in sorted(fx.items()))
+                    expanded.append((c2, tgt, (prefix or tgt) + "[" + tag + "]", fx))
+            else:
+                expanded.append((c2, tgt, prefix, None))
+        for (c2, tgt, prefix, fx) in expanded:
             try:
-                ex, o, fi = verify.verify_contract(db, c2, target=tgt, prefix=prefix)
+                ex, o, fi = verify.verify_contract(db, c2, target=tgt, prefix=prefix, fixed=fx)
                 heaps[id(ex.inputs)] = ex.old_state.heap
                 obs += o
                 rec = fi.record()
